@@ -19,6 +19,8 @@ def run(ctx):
                               "coqc work/C09/cases_*.v (digests of query x options products per state, vm_compute)")
     n = 60 if ctx.quick() else 2500
     hargs = ["-maxops", 30, "-usize", 24]
+    if ctx.replay and sc.replay(ctx, ["-c09"], hargs, (False, False, True)):
+        return
     hists = sc.hstore(["-mode", "hist", "-n", n, "-seed", ctx.seed, "-c09"] + hargs)
     bad = sc.model_mismatches(ctx, "cases_c09", hists, False, False, True, shard=100)
     sc.report(ctx, ctx.seed, hargs, hists, bad)
@@ -39,6 +41,8 @@ def run(ctx):
     ctx.cov["shared_options_calls"] = sh["calls"]
     dist = sc.distribution(hists)
     ctx.cov.update(dist)
+    st = [sum(h["lookup_stats"][i] for h in hists) for i in range(4)]
+    ctx.cov["lookup_results"] = {"empty": st[0], "non_empty": st[1], "error": st[2], "elements_returned": st[3]}
     ctx.cov["evaluations"] = sum(h["lookups"] for h in hists)
     ctx.cov["page_concatenations_checked"] = pages
     seen, classes, errs = set(), {}, 0
